@@ -154,23 +154,66 @@ func ruleC05R2(c *Ctx) {
 	var sel *ssa.Select
 	var sendVal ssa.Value
 	nSend := 0
+	type sendSite struct {
+		in      ssa.Instruction
+		val     ssa.Value
+		success *ssa.BasicBlock // where control goes when this send happened (nil: the instruction itself is the send)
+	}
+	var sites []sendSite
 	eachInstr(fn, func(in ssa.Instruction) {
 		if s, ok := in.(*ssa.Select); ok {
-			for _, st := range s.States {
+			for i, st := range s.States {
 				if st.Dir == types.SendOnly && fieldOf(st.Chan) == fCIBChannel {
 					sel, sendVal = s, st.Send
 					nSend++
+					sites = append(sites, sendSite{in, st.Send, selectCaseBlock(s, i)})
 				}
 			}
 		}
 		if s, ok := in.(*ssa.Send); ok && fieldOf(s.Chan) == fCIBChannel {
 			nSend++
 			sendVal = s.X
+			sites = append(sites, sendSite{in, s.X, nil})
 		}
 	})
-	if len(copies) != 1 || nSend != 1 {
-		c.bad("C05.R2", fn, "flush sends one copy of the pending records", fn.Pos(), fmt.Sprintf("expected one CopyLogBuffer call and one send, found %d / %d", len(copies), nSend))
+	if len(copies) != 1 || nSend < 1 {
+		c.bad("C05.R2", fn, "flush sends one copy of the pending records", fn.Pos(), fmt.Sprintf("expected one CopyLogBuffer call and at least one send, found %d / %d", len(copies), nSend))
 		return
+	}
+	if nSend > 1 {
+		// several send sites (a non-blocking fast path before the timed one): each sends the same copy, and once one of
+		// them has sent, no other is reachable — at most one send per flush
+		okOnce := true
+		why := ""
+		for _, a := range sites {
+			if !sameValue(a.val, copies[0].Value()) {
+				okOnce, why = false, "a send site sends something other than the one copy"
+			}
+			var start Point
+			switch {
+			case a.success != nil:
+				start = Point{a.success, 0}
+			case a.in.Block() != nil:
+				if _, isSel := a.in.(*ssa.Select); isSel {
+					okOnce, why = false, "the success branch of a select send could not be identified"
+					continue
+				}
+				start = after(a.in)
+			}
+			for _, b := range sites {
+				if b.in == a.in {
+					continue
+				}
+				q := &PathQ{P: c.P}
+				if hit, _ := q.Reach(start, func(in ssa.Instruction) bool { return in == b.in }); hit != nil {
+					okOnce, why = false, "after one send succeeded another send site is still reachable: the batch can be delivered twice"
+				}
+			}
+		}
+		c.check(okOnce, "C05.R2", fn, "at most one send per flush over several send sites", fn.Pos(), fmt.Sprintf("%d send sites, all of the one copy, mutually exclusive once one has sent", nSend), why)
+		if !okOnce {
+			return
+		}
 	}
 	cp := copies[0]
 	okVal := sameValue(sendVal, cp.Value()) && fieldOf(cp.Common().Args[0]) == fCIBPending
@@ -387,6 +430,7 @@ func ruleC05R6(c *Ctx) {
 	c.floor("C05.R6", "accesses of the id counters", na, 5)
 	// fixed-width, zero-padded format so that string order = (time, sequence) order
 	okFmt := false
+	whyFmt := "chunk ids are not fixed-width: sorting them as strings (recovery, leftovers) no longer gives creation order"
 	for _, s := range c.callsTo(gen, extPred("fmt.Sprintf")) {
 		mentions(s.Common().Args[0], func(v ssa.Value) bool {
 			if k, ok := v.(*ssa.Const); ok && k.Value != nil && k.Value.Kind() == constant.String {
@@ -395,9 +439,74 @@ func ruleC05R6(c *Ctx) {
 				if len(verbs) >= 2 && len(zeroPadVerbs.FindAllString(f, -1)) == len(verbs) && strings.HasPrefix(f, "%0") {
 					okFmt = true
 				}
+				// a leading %s is accepted when it is a timestamp rendered by (time.Time).Format with a fixed-width,
+				// most-significant-first layout, in UTC (local time goes backwards when the offset drops)
+				if len(verbs) >= 2 && verbs[0] == "%s" && strings.HasPrefix(f, "%s") && len(zeroPadVerbs.FindAllString(f, -1)) == len(verbs)-1 {
+					elems := varargElems(s.Common().Args[1])
+					for _, e := range elems {
+						cl, ok := strip(unbox(e)).(*ssa.Call)
+						if !ok || cl.Common().StaticCallee() == nil || extName(cl.Common().StaticCallee()) != "(time.Time).Format" {
+							continue
+						}
+						lay, isK := cl.Common().Args[1].(*ssa.Const)
+						if !isK || lay.Value == nil || !fixedWidthTimeLayout(constant.StringVal(lay.Value)) {
+							whyFmt = "the timestamp part of the id is rendered with a layout that is not fixed-width and most-significant-first"
+							continue
+						}
+						utc := mentions(cl.Common().Args[0], func(x ssa.Value) bool {
+							c2, ok := x.(*ssa.Call)
+							return ok && c2.Common().StaticCallee() != nil && extName(c2.Common().StaticCallee()) == "(time.Time).UTC"
+						})
+						if !utc {
+							whyFmt = "the timestamp part of the id is rendered in the local zone (no .UTC() before Format): ids go backwards when the host's UTC offset drops (end of DST), and the two sorts by id then put newer chunks ahead of older ones"
+							continue
+						}
+						okFmt = true
+					}
+				}
 			}
 			return false
 		})
 	}
-	c.check(okFmt, "C05.R6", gen, "id format is fixed-width zero-padded", gen.Pos(), "every integer verb of the format is %0Nd and the id starts with the timestamp", "chunk ids are not fixed-width: sorting them as strings (recovery, leftovers) no longer gives creation order")
+	c.check(okFmt, "C05.R6", gen, "id format is fixed-width zero-padded", gen.Pos(), "every integer verb of the format is %0Nd and the id starts with the timestamp (a number, or a fixed-width UTC rendering)", whyFmt)
+}
+
+// unbox: the value put into an interface
+func unbox(v ssa.Value) ssa.Value {
+	if mi, ok := strip(v).(*ssa.MakeInterface); ok {
+		return mi.X
+	}
+	return v
+}
+
+// fixedWidthTimeLayout: only zero-padded numeric elements from the year down, in that order, with literal separators
+func fixedWidthTimeLayout(l string) bool {
+	order := []string{"2006", "01", "02", "15", "04", "05"}
+	pos := 0
+	rest := l
+	for _, el := range order {
+		i := strings.Index(rest, el)
+		if i < 0 {
+			return false
+		}
+		for _, ch := range rest[:i] {
+			if ch >= '0' && ch <= '9' || ch >= 'a' && ch <= 'z' || ch == '_' {
+				return false
+			}
+		}
+		rest = rest[i+len(el):]
+		pos++
+	}
+	// optional fixed fraction ".000…" / ",000…"
+	if len(rest) > 0 {
+		if rest[0] != '.' && rest[0] != ',' {
+			return false
+		}
+		for _, ch := range rest[1:] {
+			if ch != '0' {
+				return false
+			}
+		}
+	}
+	return pos == len(order)
 }
